@@ -132,3 +132,15 @@ def canon_text(text: str) -> str:
         return canon(ast.parse(text, mode="eval").body)
     except SyntaxError:
         return text
+
+
+def nnf(e: ast.expr, neg: bool = False) -> str:
+    """Negation normal form as a canonical string: negations pushed to the atoms (De Morgan), operands sorted."""
+    if isinstance(e, ast.UnaryOp) and isinstance(e.op, ast.Not):
+        return nnf(e.operand, not neg)
+    if isinstance(e, ast.BoolOp):
+        is_and = isinstance(e.op, ast.And) != neg
+        parts = sorted(nnf(v, neg) for v in e.values)
+        return ("and(" if is_and else "or(") + ", ".join(parts) + ")"
+    inner = ast.UnaryOp(op=ast.Not(), operand=e) if neg else e
+    return canon(inner)
